@@ -4,6 +4,7 @@ once, must return the single-field values in the order of the request.
     multifield.py --seed S --n N --out FILE
 """
 import argparse
+import json
 import os
 import random
 import sys
@@ -42,6 +43,7 @@ def one(rnd):
     how = rnd.choice(['compile', 'call'])
     for o in orders:
         r = {'fields': o, 'how': how}
+        del sympool.CALLS[:]
         try:
             if how == 'compile':
                 v = layer._compile(o)(key)
@@ -50,6 +52,9 @@ def one(rnd):
             r['val'] = to_json(v)
         except BaseException as e:  # noqa
             r['exc'] = exc_name(e)
+        # one request is one call: no user function runs twice on the same arguments, however many fields are asked for
+        log = [json.dumps([n, [to_json(x) for x in a_], [[kk, to_json(x)] for kk, x in kw]], sort_keys=True) for n, a_, kw in sympool.CALLS]
+        r['repeated'] = sorted([x, log.count(x)] for x in set(log) if log.count(x) > 1)[:4]
         rec['requests'].append(r)
     return rec
 
